@@ -510,7 +510,7 @@ class C15(Check):
             "due cron minute or one-shot judged; distinct = distinct event sequences (kind, schedule, minute).")
     floors = {"counters.polls": 3000, "counters.cron_minutes_checked": 3000, "counters.cron_due_minutes": 500,
               "counters.oneshots_checked": 150, "events.poll_fail": 30, "events.kick_fail": 20,
-              "counters.runs_longer_than_a_day": 20, "counters.skip_first_run_checked": 30,
+              "counters.runs_longer_than_a_day": 20, "counters.skip_first_run_checked": 10,
               "counters.unparsable_cron_evaluations": 100}
     quick_cases = 1280
     thorough_cases = 12000
